@@ -349,6 +349,13 @@ def case_strategy():
     return build()
 
 
+def fuzz_jobs(tier, seed, tag):
+    # coverage-guided campaigns (atheris): seeded corpus + dictionary, and an empty-corpus one
+    if tier == "quick":
+        return [{"kind": "fuzz", "runs": 4000, "seed": derive_seed(seed, tag, "fz", 0)}]
+    return [{"kind": "fuzz", "runs": 300000, "seed": derive_seed(seed, tag, "fz", i), "seed_corpus": i % 4 != 3, "max_total_time": 600} for i in range(16)]
+
+
 def jobs(tier, seed):
     js = [{"kind": "sweep_header"}, {"kind": "sweep_body"}]
     for sh in range(4):
@@ -359,10 +366,14 @@ def jobs(tier, seed):
     n = 1200 if tier == "quick" else 40000
     for sh in range(16):
         js.append({"kind": "hyp", "n": n, "seed": derive_seed(seed, "c06", sh)})
+    js += fuzz_jobs(tier, seed, "c06")
     return js
 
 
 def run_job(job, col):
+    if job["kind"] == "fuzz":
+        from ..fuzz import run_fuzz_job
+        return run_fuzz_job(job, col, PID)
     def one(case):
         fs, nt, labels = run_case_full(case)
         col.record(case, fs, nontrivial=nt, labels=labels)
